@@ -62,7 +62,12 @@ RULE = ("seeded key sets: 1-3 generated files in 1-2 directories (incl. same fil
         "every name, full key, listed relative name, fragments with * and ?, wildcards in the place of special characters, other "
         "letter case, empty / wildcard-only / common-path patterns, pattern lists of 0-3 (also in non-registration order); every "
         "spelling and entry point on a sample of them; non-trivial = pattern with a special character or wildcard; distinct by "
-        "(key set, pattern)")
+        "(key set, pattern); eighth round (stream `big`, c09_big.py, oracles only): 4 (quick) / 28 (thorough) databases of 33 / 65 / 129 / "
+        "300 (64 / 128 / 257) series over 1-3 .pkl files (layouts incl. the same file name in two directories), names stem_number unit "
+        "(brackets with '/', parentheses, carets, spaces), 60% with channel names shared between the files (first / last / middle): "
+        "listing, then for the positions first / last / 31-33 / 63-65 / 127-129 / 255-257 / 4 random: full key and listed relative "
+        "name through list / getm / getl, single retrieval and containment against the reference, 14 wildcard patterns and 6 lists "
+        "of patterns / exact names")
 
 POOL = ["a", "b", "Tension [kN/m]", "Moment [kNm]", "x y", "Acc(1)", "z^2", "m_1-2.5", "T [kN/m]", "Heave (m)", "[raw]", "a b [m/s^2]",
         "Force", "force_2", "A", "p[0]", "q]",
@@ -1285,6 +1290,9 @@ def run(chk):
                     chk.disagree("nm.fnmatch", dict(pattern=p, name=k), o, im)
         if states:
             chk.sample(dict(keys=list(states[0][0].register_keys), common=attempt(lambda: states[0][0].common)))
+        # large databases (33 ... 300 series over 1-3 files, shared channel names): decided by the clauses alone (c09_big.py)
+        from .c09_big import run_big
+        run_big(chk)
     finally:
         fl.close()
 
@@ -1324,6 +1332,9 @@ def f22_shape(f):
 
 def replay(rp):
     inp = rp.get("input")
+    if isinstance(inp, dict) and inp.get("kind") == "big":
+        from .c09_big import replay_big
+        return replay_big(inp)
     dis = None
     if inp is None and rp.get("first_disagreement"):
         dis = rp["first_disagreement"]
